@@ -516,3 +516,93 @@ package collection
 //@   requires b != nil
 //@   ensures  b.Sum == 0 && b.Count == 0
 //@   modifies b.Sum, b.Count
+
+// ---------------------------------------------------------------------------------------------
+// C16 Ring: rgN[r] values were added so far, the k-th one being rgSeq[r][k]. The ring holds the last min(rgN, len) of them.
+// ---------------------------------------------------------------------------------------------
+//@ ghost var rgN map[*Ring]int
+//@ ghost var rgSeq map[*Ring]map[int]any
+//@ spec rgOK(r *Ring) bool = r != nil && len(r.elements) >= 1 && 0 <= r.index && r.index < 2*len(r.elements) && rgN[r] >= 0 &&
+//@      implies(rgN[r] < len(r.elements), r.index == rgN[r]) && implies(rgN[r] >= len(r.elements), r.index >= len(r.elements)) &&
+//@      forall(i.(int), implies(1 <= i && i <= min(rgN[r], len(r.elements)), r.elements[wrap(r.index - i, len(r.elements))] == rgSeq[r][rgN[r] - i]))
+
+//@ lemma rgAt(r *Ring, i int)
+//@   property C16
+//@   hyp rgOK(r) && 1 <= i && i <= min(rgN[r], len(r.elements))
+//@   goal r.elements[wrap(r.index - i, len(r.elements))] == rgSeq[r][rgN[r] - i]
+
+//@ func NewRing
+//@   property C16
+//@   requires n >= 1
+//@   ghost at returned#0: rgN[ret] = 0
+//@   ensures  fresh(result) && rgOK(result) && rgN[result] == 0 && len(result.elements) == n
+//@   modifies rgN[result]
+//@   allocates
+
+//@ func (r *Ring) Add
+//@   property C16
+//@   requires rgOK(r)
+//@   ghost at entry: lemma modWrap(r.index, len(r.elements))
+//@   ghost at entry: rgSeq[r][rgN[r]] = v
+//@   ghost at entry: rgN[r] = rgN[r] + 1
+//@   ensures  rgOK(r) && rgN[r] == old(rgN[r]) + 1 && rgSeq[r] == upd(old(rgSeq[r]), old(rgN[r]), v) && len(r.elements) == old(len(r.elements))
+//@   modifies r.index, elems(r.elements), rgN[r], rgSeq[r]
+
+//@ func (r *Ring) Take
+//@   property C16
+//@   requires rgOK(r)
+//@   ghost at entry: lemma modWrap(r.index, len(r.elements))
+//@   ghost at begin loop 0: lemma modWrap(start + i, rlen)
+//@   ghost at begin loop 0: lemma rgAt(r, size - i)
+//@   ensures  len(result) == min(rgN[r], len(r.elements))
+//@   ensures  forall(i.(int), implies(0 <= i && i < len(result), result[i] == rgSeq[r][rgN[r] - len(result) + i]))
+//@   modifies nothing
+//@   allocates
+//@   loop 0: modifies elems(elements)
+//@   loop 0: invariant 0 <= i && i <= size && len(elements) == size
+//@   loop 0: invariant forall(j.(int), implies(0 <= j && j < i, elements[j] == rgSeq[r][rgN[r] - size + j]))
+
+// ---------------------------------------------------------------------------------------------
+// C16 Queue: qPut[q] elements were put so far (the k-th being qSeq[q][k]), qGot[q] of them were taken, in the same order.
+// ---------------------------------------------------------------------------------------------
+//@ ghost var qPut map[*Queue]int
+//@ ghost var qGot map[*Queue]int
+//@ ghost var qSeq map[*Queue]map[int]any
+//@ spec qOK(q *Queue) bool = q != nil && len(q.elements) >= 1 && q.size >= 1 && 0 <= q.head && q.head < len(q.elements) && 0 <= q.tail && q.tail < len(q.elements) &&
+//@      0 <= q.count && q.count <= len(q.elements) && q.count == qPut[q] - qGot[q] && qGot[q] >= 0 && q.tail == wrap(q.head + q.count, len(q.elements)) &&
+//@      forall(k.(int), implies(qGot[q] <= k && k < qPut[q], q.elements[wrap(q.head + (k - qGot[q]), len(q.elements))] == qSeq[q][k]))
+
+//@ func NewQueue
+//@   property C16
+//@   requires size >= 1
+//@   ghost at returned#0: qPut[ret] = 0
+//@   ghost at returned#0: qGot[ret] = 0
+//@   ensures  fresh(result) && qOK(result) && qPut[result] == 0 && qGot[result] == 0
+//@   modifies qPut[result], qGot[result]
+//@   allocates
+
+//@ func (q *Queue) Empty
+//@   property C16
+//@   requires qOK(q)
+//@   ensures  result == (qPut[q] == qGot[q])
+//@   modifies nothing
+
+//@ func (q *Queue) Put
+//@   property C16
+//@   requires qOK(q)
+//@   ghost at entry: qSeq[q][qPut[q]] = element
+//@   ghost at entry: qPut[q] = qPut[q] + 1
+//@   ghost at before len#3: lemma modWrap(q.tail + 1, len(q.elements))
+//@   ensures  qOK(q) && qPut[q] == old(qPut[q]) + 1 && qGot[q] == old(qGot[q]) && qSeq[q] == upd(old(qSeq[q]), old(qPut[q]), element)
+//@   modifies q.elements, q.head, q.tail, q.count, elems(q.elements), qPut[q], qSeq[q]
+//@   allocates
+
+//@ func (q *Queue) Take
+//@   property C16
+//@   results element, ok
+//@   requires qOK(q)
+//@   ghost at before len#0: lemma modWrap(q.head + 1, len(q.elements))
+//@   ghost at before len#0: qGot[q] = qGot[q] + 1
+//@   ensures  ok == (old(qPut[q]) > old(qGot[q])) && implies(ok, element == qSeq[q][old(qGot[q])] && qGot[q] == old(qGot[q]) + 1)
+//@   ensures  implies(!ok, qGot[q] == old(qGot[q])) && qOK(q) && qPut[q] == old(qPut[q])
+//@   modifies q.head, q.count, qGot[q]
